@@ -75,7 +75,8 @@ func c08AggShadow(fn string, cells []c08ICell) string {
 			case "num", "bool":
 				s += c.N
 			case "str":
-				if x, err := strconv.ParseFloat(c.S, 64); err == nil {
+				// ToNumber: text such as "inf" or "NaN" parses but is #NUM! and skipped
+				if x, err := strconv.ParseFloat(c.S, 64); err == nil && !math.IsNaN(x) && !math.IsInf(x, 0) {
 					s += x
 				}
 			default:
@@ -94,7 +95,7 @@ func c08AggShadow(fn string, cells []c08ICell) string {
 				if c.S == "TRUE" || c.S == "FALSE" {
 					continue
 				}
-				if x, err := strconv.ParseFloat(c.S, 64); err == nil {
+				if x, err := strconv.ParseFloat(c.S, 64); err == nil && !math.IsNaN(x) && !math.IsInf(x, 0) {
 					s += x
 					n++
 				}
@@ -181,7 +182,7 @@ func c08AggSig(fn string, impl []c08ICell, spec []c08Val) string {
 		case c.K == "str" && c.S == "" && sv.K != "blank":
 			has["empty-string-result"] = true
 		case c.K == "str":
-			if _, err := strconv.ParseFloat(c.S, 64); err == nil && c.S != "TRUE" && c.S != "FALSE" {
+			if x, err := strconv.ParseFloat(c.S, 64); err == nil && !math.IsNaN(x) && !math.IsInf(x, 0) {
 				has["numeric-text"] = true
 			}
 		case c.K == "bool" && c.N == 1:
@@ -317,6 +318,11 @@ func (st *c08State) aggFormula(r *Run, tree *c08Node) {
 		}
 		if st.isDefName(tree.Spell) { // a defined range name: the model does the lookup
 			ks = []string{"d:" + hx(tree.Spell) + ":" + hx(st.main())}
+		} else if !strings.Contains(tree.Spell, "rg_") { // spelled ranges: the model resolves them (parseReference)
+			ks = nil
+			for _, a := range strings.Split(tree.Spell, ",") {
+				ks = append(ks, "gr:"+hx(c08Unquote(a))+":"+hx(st.main()))
+			}
 		}
 		op = "agg " + tree.Op + " " + strings.Join(ks, " ") + " | " + tb.String()
 		ln = r.Op(op, raw+" S="+c08SpecStr(c08AggSpec(tree.Op, func() []c08Val { _, s := st.aggCells(tree); return s }())))
@@ -337,10 +343,13 @@ func (st *c08State) aggFormula(r *Run, tree *c08Node) {
 				if i >= len(sizes) {
 					break
 				}
-				if st.isDefName(a) {
+				switch {
+				case st.isDefName(a):
 					spell[a] = "@DG:" + st.main()
-				} else {
+				case strings.HasPrefix(a, "rg_"): // self-describing workbook-level name of the aggregate generator
 					spell[a] = "@G:" + strings.Join(lf.Keys[off:off+sizes[i]], ",")
+				default: // a spelled range: the model resolves it (parseReference)
+					spell[c08Unquote(a)] = "@GR:" + st.main()
 				}
 				off += sizes[i]
 			}
@@ -401,7 +410,7 @@ type c08AggGen struct {
 	names int
 }
 
-var c08AggText = []string{"abc", "x y", "zz", "TRUE", "n/a"}
+var c08AggText = []string{"abc", "x y", "zz", "TRUE", "n/a", "inf", "NaN", "-Infinity", "Inf"}
 
 func (g *c08AggGen) number(profile int) float64 {
 	neg := []float64{-1, -2.5, -3, -10, -0.5, -100, -7.25, -42}
@@ -440,7 +449,9 @@ func c08NumLit(x float64) *c08Node {
 
 // formula cell templates: number, text, boolean, numeric text, empty text, #DIV/0!, #NUM! value
 func (g *c08AggGen) formulaTree(profile int) (*c08Node, string) {
-	switch g.rng.Intn(8) {
+	switch g.rng.Intn(9) {
+	case 8:
+		return c08B("mul", c08Lit("N", "1E+200"), c08Lit("N", "1E+200")), "formula:overflow-error-value"
 	case 0:
 		return c08B("div", c08Lit("N", "1"), c08Lit("N", "0")), "formula:error"
 	case 1:
